@@ -14,11 +14,11 @@ TN = "TreeNodeWithPreviousValue."
 SM = "StorageManager."
 PROPS = {
     "C13": {
-        "verus": [("tree_node", [TN + "determine_node_to_get", TN + "get_appropriate_tree_node_from_storage"]),
+        "verus": [("tree_node", [TN + "determine_node_to_get", TN + "get_appropriate_tree_node_from_storage", "TreeNode.get_from_storage", "TreeNode.get_child_label", "TreeNode.get_child_node"]),
                   ("azks_audit", ["Azks.get_root_hash_safe", "Azks.get_root_hash", "Directory.get_epoch_hash", "Azks.get_latest_epoch", "NodeLabel.root", "NodeLabel.new"])],
         "search": True,
         "always_search": True,
-        "scope": "partial: the as-of read of a node record never returns a node newer than the epoch asked for (so no answer stitches a newer node into an older epoch), returns the latest "
+        "scope": "partial: the as-of read of a node record never returns a node newer than the epoch asked for (so no answer stitches a newer node into an older epoch); a child a node names but whose record holds only newer versions (reader behind storage) is an error for get_child_node, never an absent child (else the proof walk would return a proof that misses a subtree); the read returns the latest "
                  "node whenever it is not newer, and otherwise only NotFound; get_epoch_hash answers (e, h) with e the latest epoch of the ONE epoch record it read and h the root hash of the "
                  "root node as of that very e (get_root_hash_safe refuses any epoch other than the record's). Interleavings, the change poller and the cache are not decided.",
         "trusted": ["T6 async functions are verified under single-task sequential semantics; a storage read is a function of (manager, key) during one call",
@@ -74,17 +74,17 @@ PROPS = {
         "assumed": ["attacker-supplied epochs are < u64::MAX and the epoch list is shorter than usize::MAX (overflow guards)"],
     },
     "C10": {
-        "verus": ["directory_publish"],
+        "verus": ["directory_publish", ("tree_node", [TN + "get_appropriate_tree_node_from_storage", TN + "determine_node_to_get", "TreeNode.get_from_storage", "TreeNode.get_child_label", "TreeNode.get_child_node"])],
         "search": True,
         "always_search": True,
         "bounded_search": [{"obligation": "replay/c10#single_fault_enumeration",
                             "bound": "one fixed two-epoch history ([(a,a1),(b,b1)] then [(a,a2),(c,c1)]); the second publish repeated once per database operation it performs with exactly that "
-                                     "operation failing; with and without the object cache; both hashing configurations; in-memory database"}],
+                                     "operation failing, followed by the same batch again or by a different batch [(b,b2),(d,d1)]; with and without the object cache; both hashing configurations; in-memory database"}],
         "scope": "partial. Deductive part (the transactional tail of Directory::publish, from the no-change early return to the end, verified as two segments of the real text): an epoch other than the "
                  "current one is announced only if commit_transaction returned Ok, and then it is current+1; every error exit taken after begin_transaction is preceded by rollback_transaction "
-                 "(failed insertion, failed root-hash computation, failed commit); once the commit has been accepted nothing that can fail is left - the call returns Ok(next epoch). "
+                 "(failed insertion, failed root-hash computation, failed commit); once the commit has been accepted nothing that can fail is left - the call returns Ok(next epoch); a named child whose read fails with anything but NotFound surfaces as an error through get_from_storage and get_child_node (never as 'no child', which the hashing would treat as an empty subtree). "
                  "BOUNDED part (never counted as proved): single-fault enumeration on the real code - after a publish that returned an error the same directory instance reports the previous "
-                 "epoch and root hash, still serves a verifying proof of the previous value, holds no open transaction, and a retried publish ends in the fault-free state. "
+                 "epoch and root hash, still serves a verifying proof of the previous value, holds no open transaction, and a later publish (the same batch again, or a different one) ends in the state of a directory that never saw the failed call; a publish that returns Ok despite a failed operation must have produced the fault-free root hash. "
                  "Not decided: the statements of publish before the segment (duplicate check, label derivation, building the update sets - they perform reads only), the cache's and the "
                  "transaction log's internal state (Arc/DashMap/atomics behind &self), multi-fault schedules, histories other than the enumerated one.",
         "trusted": ["StorageManager::{begin,commit,rollback}_transaction, batch_set and the Azks methods are external; 'rollback was called' / 'commit returned Ok' are knowledge tokens that only those calls' postconditions hand out",
